@@ -1,4 +1,4 @@
-import Httpcache.Proofs.Store
+import Httpcache.Proofs.Invalidate
 /-
 C07 — Successful unsafe requests invalidate what is stored for their target.
 
@@ -7,9 +7,12 @@ C07 — Successful unsafe requests invalidate what is stored for their target.
    a same-origin URI named by that response's Location or Content-Location, is returned again
    without validation. URIs of a different origin named in those fields stay cached …"
 
-Exchange-local theorems: which store keys such an exchange deletes, for every answer of the store.
-That a deleted entry cannot be served later is the map semantics of the backend (C14); the
-history-level statement is checked by the monitor on the implementation.
+Exchange-local theorems: which store keys such an exchange deletes (`unsafe_invalidates`,
+`same_origin_location_invalidated`) and which it does NOT (`cross_origin_stays_cached`: with no
+same-origin Location / Content-Location nothing but the target's own keys is deleted), for every answer
+of the store. That a deleted entry cannot be served later is the map semantics of the backend (C14);
+the history-level statement, including interleavings with requests in flight, is checked by the
+monitor on the implementation.
 -/
 namespace Httpcache.C07
 open Httpcache
@@ -49,5 +52,31 @@ theorem unsafe_invalidates (cfg : Cfg) (t0 : Int) (req : Req) (tr : List Step) (
       cases h1 with
       | getRefs a h2 =>
         exact ⟨a, _, rfl, invalidateCache_deletes _ _ _ _ _ _ _ _ h2⟩
+
+/-- a same-origin URI named by Location or Content-Location is invalidated too: its index is read, and
+    its key and the id of every reference the store returned for it are deleted (or were already) -/
+theorem same_origin_location_invalidated (cfg : Cfg) (req : Req) (respH : Header) (hdr : Str) (deleted : List Str)
+    (cont : List Str → Prog) (tr : List Step) (r : Result) (g : LocGlue)
+    (hne : (Header.get respH hdr).isEmpty = false) (hg : cfg.loc hdr = some g)
+    (hs : sameOrigin req.scheme req.host g.scheme g.host = true)
+    (h : Run (invalidateLocation cfg req respH hdr deleted cont) tr r) :
+    ∃ a tr', tr = Step.getRefs (makeURLKeyOf g.kScheme g.kHost g.kPath g.kQuery g.kOpaq) a :: tr' ∧
+      ∃ tr1 tr2 d, tr' = tr1 ++ tr2 ∧ Run (cont d) tr2 r ∧
+        makeURLKeyOf g.kScheme g.kHost g.kPath g.kQuery g.kOpaq ∈ d ∧ (∀ ref ∈ a.getD [], ref.id ∈ d) ∧
+        (∀ x ∈ d, x ∈ deleted ∨ Step.delete x ∈ tr1) :=
+  invalidateLocation_same cfg req respH hdr deleted cont tr r g hne hg hs h
+
+/-- "URIs of a different origin named in those fields stay cached": when the reply names no same-origin
+    Location / Content-Location (absent, unresolvable, or another scheme / host / port — `//other/x`
+    included), the exchange deletes the key of its own URL and the ids of the references the store
+    returned for that key, and nothing else -/
+theorem cross_origin_stays_cached (cfg : Cfg) (t0 : Int) (req : Req) (tr : List Step) (r : Result)
+    (hu : isRequestMethodUnderstood req = false) (h : Run (roundTrip cfg t0 req) tr r) :
+    ∀ x, Step.delete x ∈ tr →
+      ∃ ans tr1, tr = Step.origin req.method req.header none ans :: tr1 ∧
+        ∀ rr t1 b, ans = .resp rr t1 b →
+          NotSameOrigin cfg req rr.header sLocation → NotSameOrigin cfg req rr.header sContentLocation →
+          x = makeURLKey req ∨ ∃ refs, Step.getRefs (makeURLKey req) refs ∈ tr1 ∧ ∃ ref ∈ refs.getD [], x = ref.id :=
+  unsafe_exchange_deletes_only_target cfg t0 req tr r hu h
 
 end Httpcache.C07
